@@ -19,7 +19,7 @@ def templates(tier, seed):
                     if tier == "quick" and coerce and (rd != "all" or shape in ("frame_wide", "frame_wide3", "frame_index")):
                         continue
                     ts.append(Template(f"{shape}/rd={rd}/coerce={int(coerce)}/N={N}", t_drop, (shape, N, dict(rd=rd, coerce=coerce))))
-        for shape in ("frame_sets", "frame_nfc", "frame_nested"):
+        for shape in ("frame_sets", "frame_nfc", "frame_nfc_mi", "frame_nested"):
             for rd in (("all",) if shape != "frame_sets" or tier == "quick" else ("all", "exclude_first", "exclude_last")):
                 ts.append(Template(f"{shape}/rd={rd}/coerce=0/N={N}", t_drop, (shape, N, dict(rd=rd, coerce=False))))
     if tier == "quick":  # two rows cannot be duplicated in one set and not in the other: the smallest revealing frame has three rows
